@@ -28,16 +28,16 @@ func (mgr *Manager) AddCharacter(id key.TargetID, char *model.Character) error {
 	traces := processTraces(config.Traces, baseStats, char.Traces, asc, lvl)
 
 	// add lightcone base stats
-	lcLvl := int(char.LightCone.Level)
+	lcLvl := int(char.GetLightCone().GetLevel())
 	if lcLvl <= 0 {
 		lcLvl = 1
 	}
 
-	lcConfig, err := lightcone.Get(key.LightCone(char.LightCone.Key))
+	lcConfig, err := lightcone.Get(key.LightCone(char.GetLightCone().GetKey()))
 	if err != nil {
 		return err
 	}
-	lcAsc := lcConfig.Ascension(int(char.LightCone.MaxLevel), lcLvl)
+	lcAsc := lcConfig.Ascension(int(char.GetLightCone().GetMaxLevel()), lcLvl)
 	lightcone.AddBaseStats(baseStats, lcConfig.Promotions[lcAsc], lcLvl)
 
 	// add relic stats from sim config
@@ -105,10 +105,10 @@ func (mgr *Manager) AddCharacter(id key.TargetID, char *model.Character) error {
 		Traces:       traces,
 		AbilityLevel: abilityLevels(char.Abilities),
 		LightCone: info.LightCone{
-			Key:        key.LightCone(char.LightCone.Key),
+			Key:        key.LightCone(char.GetLightCone().GetKey()),
 			Level:      lcLvl,
 			Ascension:  lcAsc,
-			Imposition: int(char.LightCone.Imposition),
+			Imposition: int(char.GetLightCone().GetImposition()),
 			Path:       lcConfig.Path,
 		},
 		Relics: relics,
